@@ -88,6 +88,18 @@ def run_parts(bins, args, timeout=1500):
     return out
 
 
+def abort_summary(text):
+    """the informative line of a sanitizer report / assertion / uncaught exception, and the case that was running"""
+    what = None
+    for ln in text.split("\n"):
+        if re.search(r"ERROR: AddressSanitizer|runtime error:|Assertion .* failed|terminate called|what\(\):|SUMMARY: ", ln):
+            what = ln.strip()
+            if "SUMMARY" not in ln:
+                break
+    m = re.search(r"ABORTED-IN case=(\d+) kind=(\S+) shape=(\S+)", text)
+    return (what or " ".join(text.split("\n")[-6:]))[:400], (m.group(3) if m else None)
+
+
 def case_line_of(text, case_id, kind=None):
     for ln in text.split("\n"):
         if ln.startswith("case %s " % case_id) and (kind is None or ln.split()[2] == kind):
@@ -121,7 +133,7 @@ def run_c04(ck, tier):
         for k in sorted(results):
             rc, text = results[k]
             if rc not in (0, 3):
-                aborts.append((label, k, rc, text[-3000:], replay_line))
+                aborts.append((label, k, rc, text[-12000:], replay_line))
             rc2, dout = vlib.driver(["codec", "run"], stdin_data=text.encode())
             for ln in dout.split("\n"):
                 if ln.startswith("DONE"):
@@ -176,10 +188,14 @@ def run_c04(ck, tier):
         ck.violation("oracle", content, "property fails on the real code: %s (%d oracle hits in this run)" % (ln[:400], len(oracle_hits)))
     if aborts and not oracle_hits:
         label, k, rc, tail, rl = aborts[0]
-        ck.violation("abort", "# %s part %d rc=%d (sanitizer report or crash while driving the real codec)\n%s\n# ---- output tail ----\n# %s\n" % (
-            label, k, rc, rl, tail.replace("\n", "\n# ")),
-            "harness aborted (rc=%d) in part %d: sanitizer report or crash while driving the real code: %s" % (
-                rc, k, " ".join(tail.split("\n")[-12:])[:300]))
+        what, shape = abort_summary(tail)
+        lines = [l for l in rl.split("\n") if l.startswith("seed")]
+        if shape and lines and " only " not in lines[0]:
+            rl = "".join("%s only %s\n" % (l, shape) for l in lines)
+        ck.violation("abort", "# %s part %d rc=%d (sanitizer report or crash while driving the real codec)\n# %s\n%s\n# ---- output tail ----\n# %s\n" % (
+            label, k, rc, what, rl, tail[-1500:].replace("\n", "\n# ")),
+            "harness aborted (rc=%d) in part %d%s while driving the real code: %s" % (
+                rc, k, " on shape %s" % shape if shape else "", what))
     if mismatches and not oracle_hits and not aborts:
         label, k, ln, text, rl = mismatches[0]
         content = "# correspondence stream `codec` (harness h3_codec part %d vs Lean driver) no longer agrees\n# %s\n# %s\n%s" % (
